@@ -4,6 +4,9 @@ type PotResult struct {
 	rank  Rank
 	level *PotLevel
 
+	// number of odd chips already handed out to the winners of this pot
+	oddChips int64
+
 	Total   int64     `json:"total"`
 	Winners []*Winner `json:"winners"`
 }
